@@ -48,42 +48,69 @@ def strategy():
         st.integers(0, 2),                                   # kind: insert(cols) / ctas / view
         st.lists(st.integers(0, 9), min_size=1, max_size=3),  # read set picks (base tables and earlier targets)
         st.lists(st.tuples(expr_form, col_pick), min_size=1, max_size=3),  # one entry per target column
-        st.integers(0, 5),                                   # 0: wrap the source in a derived table ; 1: rewrite an earlier target
+        st.integers(0, 5),                                   # mode: derived / rewrite / self_ref / star_base / redefine / plain
         st.integers(0, 3),                                   # provider-only variant: 0 none, 1 star from earlier target, 2 unqualified column
     )
     return st.tuples(st.lists(stmt, min_size=2, max_size=4), st.booleans())
 
 
 def build(case):
-    """returns (list of IR statements, list of per-statement column lists, needs_provider)"""
+    """returns (list of IR statements, needs_provider).  targets: name -> list of column names currently defined ([] = only '*')"""
     stmts_spec, use_provider = case
-    targets = []  # (name, cols)
+    targets = []  # [name, cols]   (cols == [] : the table was created by SELECT * over an unknown table: only its star can be read)
     out = []
     needs_provider = False
     unq_names = set()  # a name is used unqualified at most once per script (same-named unresolved columns of different statements merge: K-unres-merge)
     for i, (kind, reads, cols_spec, wrap, variant) in enumerate(stmts_spec):
-        avail = [(f"{s}.{n}", list(BASE_COLS)) for s, n in BASE] + [(f"s.{n}", list(c)) for n, c in targets]
-        # read set: at least one earlier target when there is one (chains), plus optional others
+        named_targets = [t for t in targets if t[1]]
+        avail = [(f"{s}.{n}", list(BASE_COLS)) for s, n in BASE] + [(f"s.{n}", list(c)) for n, c in named_targets]
         picks = []
-        if targets:
-            picks.append(len(BASE) + reads[0] % len(targets))
-        for r in reads[1:] if targets else reads:
+        if named_targets:
+            picks.append(len(BASE) + reads[0] % len(named_targets))
+        for r in reads[1:] if named_targets else reads:
             picks.append(r % len(avail))
         picks = list(dict.fromkeys(picks))[:3]
         rels = [avail[p] for p in picks]
-        rewrite_target = wrap == 1 and len(targets) >= 2 and i >= 2
-        if rewrite_target:
-            tname, tcols = targets[0]
+        mode = ["derived", "rewrite", "self_ref", "star_base", "redefine", "plain"][wrap % 6]
+        if mode == "rewrite" and not (len(named_targets) >= 2 and i >= 2):
+            mode = "plain"
+        if mode == "redefine" and not (named_targets and i >= 2 and kind != 0):
+            mode = "plain"
+        star_only = [t for t in targets if not t[1]]
+        # ---- star read of a table that only has '*' (created by SELECT * over an unknown table): w.* -> new.*
+        if star_only and variant == 3 and kind != 0:
+            src = star_only[reads[0] % len(star_only)]
+            tname = f"w{i + 1}"
+            q = ir.Select((ir.Item(ir.Star(None)),), (ir.FromGroup(Tn(src[0])),))
+            out.append(ir.Ctas(Tn(tname), q, "CREATE TABLE", False) if kind == 1 else ir.CreateView(Tn(tname), None, q, "CREATE VIEW", False))
+            targets.append([tname, []])
+            continue
+        if mode == "star_base" and kind != 0:
+            b = BASE[reads[0] % len(BASE)]
+            tname = f"w{i + 1}"
+            q = ir.Select((ir.Item(ir.Star(None)),), (ir.FromGroup(ir.T(b[0], b[1])),))
+            out.append(ir.Ctas(Tn(tname), q, "CREATE TABLE", False) if kind == 1 else ir.CreateView(Tn(tname), None, q, "CREATE VIEW", False))
+            targets.append([tname, []])
+            continue
+        if mode == "rewrite":
+            tname, tcols = named_targets[0][0], list(named_targets[0][1])
             rels = [r for r in rels if r[0] != f"s.{tname}"] or [avail[0]]
             ncols = len(tcols)
+        elif mode == "redefine":
+            # CREATE the table again with DIFFERENT columns (after it may have been read): later reads must see the new definition
+            tname = named_targets[reads[0] % len(named_targets)][0]
+            rels = [r for r in rels if r[0] != f"s.{tname}"] or [avail[0]]
+            ncols = len(cols_spec)
+            tcols = [f"z{i + 1}{j + 1}" for j in range(ncols)]
         else:
             tname = f"w{i + 1}"
             ncols = len(cols_spec)
             tcols = [f"y{i + 1}{j + 1}" for j in range(ncols)]
         flat = [(r[0], c) for r in rels for c in r[1]]
         items = []
-        star_variant = use_provider and variant == 1 and targets and not rewrite_target and kind != 0 and len(rels) == 1 and rels[0][0].startswith("s.w")
-        unq_variant = use_provider and variant == 2 and targets and not rewrite_target and len(rels) >= 2 and rels[0][0].startswith("s.w")
+        single_w = len(rels) == 1 and rels[0][0].startswith("s.w")
+        star_variant = use_provider and variant == 1 and mode in ("plain", "derived") and kind != 0 and single_w
+        unq_variant = use_provider and variant == 2 and mode in ("plain", "derived", "self_ref") and len(rels) >= 2 and rels[0][0].startswith("s.w")
         if unq_variant:
             cand = rels[0][1][cols_spec[0][1][0] % len(rels[0][1])]
             if cand in unq_names:
@@ -95,36 +122,40 @@ def build(case):
             ca, cb = flat[a % len(flat)], flat[b % len(flat)]
             A, B = ir.Col(ca[0], ca[1]), ir.Col(cb[0], cb[1])
             if unq_variant and j == 0:
-                # an unqualified column that only the earlier target defines (its names y.. occur in no other relation of the scope)
                 A = ir.Col(None, rels[0][1][a % len(rels[0][1])])
                 needs_provider = True
                 form = 0
             e = [A, ir.Func("coalesce", (A, B)), ir.Bin("+", A, B), ir.Case(((ir.Cmp(A, ">", ir.Lit("0")), B),), A), ir.Cast(A, "int", "cast"),
                  ir.Func("max", (ir.Bin("*", A, ir.Lit("2")),)), ir.Win("sum", (A,), (B,), (A,))][form % 7]
             items.append(ir.Item(e, tcols[j], True))
-        groups = []
         first = Tn(rels[0][0].split(".")[1])
         joins = tuple(ir.Join("JOIN", Tn(r[0].split(".")[1]), ("on", ir.Cmp(ir.Col(rels[0][0], rels[0][1][0]), "=", ir.Col(r[0], r[1][0])))) for r in rels[1:])
-        groups.append(ir.FromGroup(first, joins))
+        if mode == "self_ref" and kind == 0:
+            # the statement also reads the table it writes (a lookup join against its own target); no column of it is selected
+            joins = joins + (ir.Join("LEFT JOIN", Tn(tname), ("on", ir.Cmp(ir.Col(rels[0][0], rels[0][1][0]), "=", ir.Col(f"s.{tname}", tcols[0])))),)
+        groups = [ir.FromGroup(first, joins)]
         if star_variant:
             q = ir.Select((ir.Item(ir.Star(None)),), tuple(groups))
             tcols = list(rels[0][1])
             needs_provider = True
         else:
             q = ir.Select(tuple(items), tuple(groups))
-            if wrap == 0 and not unq_variant:
-                # through a derived table: inner select passes the items, outer selects them by name
+            if mode == "derived" and not unq_variant:
                 q = ir.Select(tuple(ir.Item(ir.Col(f"d{i + 1}", c), c, True) for c in tcols), (ir.FromGroup(ir.Derived(q, f"d{i + 1}", True)),))
         tgt = Tn(tname)
-        if kind == 0 or rewrite_target:
+        if (kind == 0 or mode == "rewrite") and mode != "redefine":
             st_ = ir.Insert(tgt, tuple(tcols) if not star_variant else None, q, "INSERT INTO", False)
         elif kind == 1:
-            st_ = ir.Ctas(tgt, q, "CREATE TABLE", False)
+            st_ = ir.Ctas(tgt, q, "CREATE OR REPLACE TABLE" if mode == "redefine" else "CREATE TABLE", False)
         else:
-            st_ = ir.CreateView(tgt, None, q, "CREATE VIEW", False)
+            st_ = ir.CreateView(tgt, None, q, "CREATE OR REPLACE VIEW" if mode == "redefine" else "CREATE VIEW", False)
         out.append(st_)
-        if not rewrite_target:
-            targets.append((tname, tcols))
+        if mode == "redefine":
+            for t in targets:
+                if t[0] == tname:
+                    t[1] = tcols
+        elif mode != "rewrite":
+            targets.append([tname, tcols])
     return out, needs_provider
 
 
@@ -223,6 +254,109 @@ def _worker(payload):
     return res
 
 
+# ------------------------------------------------------------------------------------------ pattern stream (bounded-exhaustive)
+OPS7 = ["defA", "defB", "insA", "star", "named", "unq", "ins_nolist"]
+OPS5 = ["defA", "defB", "star", "named", "ins_nolist"]
+
+
+def pattern_script(ops, use_provider):
+    """statements for a sequence of operations on ONE table s.w1 whose definition changes over the history; None = not well-formed"""
+    C, I = ir.Col, ir.Item
+    cur = None  # current column list of s.w1
+    out = []
+    k = 0
+    unq_used = False
+    for op in ops:
+        k += 1
+        if op == "defA":
+            out.append(ir.Ctas(Tn("w1"), ir.Select((I(C("s.b1", "x1"), "p1", True), I(C("s.b1", "x2"), "p2", True)), (ir.FromGroup(Tn("b1")),)), "CREATE TABLE", False))
+            cur = ["p1", "p2"]
+        elif op == "defB":
+            if cur is None:
+                return None
+            out.append(ir.Ctas(Tn("w1"), ir.Select((I(C("s.b2", "x1"), "q1", True),), (ir.FromGroup(Tn("b2")),)), "CREATE OR REPLACE TABLE", False))
+            cur = ["q1"]
+        elif op == "insA":
+            if cur not in (None, ["p1", "p2"]):
+                return None
+            out.append(ir.Insert(Tn("w1"), ("p1", "p2"), ir.Select((I(C("s.b3", "x1"), "p1", True), I(C("s.b3", "x3"), "p2", True)), (ir.FromGroup(Tn("b3")),)), "INSERT INTO", False))
+            cur = ["p1", "p2"]
+        elif op == "ins_nolist":
+            # INSERT without column list: named by position from what the session knows about the target (with a provider), else by the select list
+            if cur is None or len(cur) != 2:
+                return None
+            out.append(ir.Insert(Tn("w1"), None, ir.Select((I(C("s.b3", "x2")), I(C("s.b3", "x3"))), (ir.FromGroup(Tn("b3")),)), "INSERT INTO", False))
+            if not use_provider:
+                cur = ["x2", "x3"]  # the statement defines these columns for the session when nothing names the positions
+        elif op == "star":
+            out.append(ir.Ctas(Tn(f"r{k}"), ir.Select((I(ir.Star(None)),), (ir.FromGroup(Tn("w1")),)), "CREATE TABLE", False))
+        elif op == "named":
+            if cur is None:
+                return None
+            out.append(ir.Insert(Tn(f"r{k}"), ("n1",), ir.Select((I(C("s.w1", cur[0]), "n1", True),), (ir.FromGroup(Tn("w1")),)), "INSERT INTO", False))
+        elif op == "unq":
+            if cur is None or unq_used or not use_provider:
+                return None
+            unq_used = True
+            out.append(ir.Insert(Tn(f"r{k}"), ("u1",), ir.Select((I(C(None, cur[0]), "u1", True),), (ir.FromGroup(Tn("w1"), (ir.Join("JOIN", Tn("b3"), ("on", ir.Cmp(C("s.w1", cur[0]), "=", C("s.b3", "x1")))),)),)), "INSERT INTO", False))
+    if not any(op in ("star", "named", "unq") for op in ops) or not any(op.startswith(("def", "ins")) for op in ops):
+        return None
+    return out
+
+
+def pattern_sequences(ctx):
+    import itertools
+
+    for n in (2, 3):
+        for ops in itertools.product(OPS7, repeat=n):
+            yield ops
+    for ops in itertools.product(OPS5, repeat=4):
+        yield ops
+    if not ctx.quick:
+        for ops in itertools.product(OPS5, repeat=5):
+            yield ops
+
+
+def reference_paths_pattern(stmts, use_provider):
+    """as reference_paths, but the session's knowledge of a table is REPLACED by each statement that defines columns for it; without a provider an
+    INSERT without column list defines the select list's names"""
+    return reference_paths(stmts, use_provider)
+
+
+def _pattern_worker(payload):
+    shard, nshards, ctx = payload
+    res = runner.Res()
+    idx = 0
+    for ops in pattern_sequences(ctx):
+        for use_provider in (False, True):
+            idx += 1
+            if idx % nshards != shard:
+                continue
+            stmts = pattern_script(ops, use_provider)
+            if stmts is None:
+                res.discard("pattern_not_well_formed")
+                continue
+            if ctx.out_of_time():
+                res.budget_exhausted = True
+                return res
+            script = ";\n".join(ir.r_stmt(s_) for s_ in stmts)
+            exp = reference_paths(stmts, use_provider)
+            c = {"script": script, "provider": use_provider, "expected_paths": exp, "ops": list(ops)}
+            res.case((script, use_provider), any(len(p) >= 3 for p in exp), labels=["pattern", "provider" if use_provider else "no_provider", f"ops={len(ops)}"] +
+                     (["redefinition_then_read"] if "defB" in ops and ops.index("defB") < len(ops) - 1 else []), sample=c)
+            d = compare(exp, actual_paths(script, use_provider))
+            if d is None:
+                continue
+            fid = classify(c, d)
+            if fid and fid in ctx.active:
+                res.known(fid, c)
+            elif os.environ.get("VERIF_COLLECT"):
+                res.known("UNLISTED pattern | " + d["what"] + " | provider=" + str(use_provider) + " | " + " ".join(ops), c)
+            elif len(res.violations) < 4:
+                res.violation("pattern", c, d)
+    return res
+
+
 def replay(case):
     d = compare(sorted(case["expected_paths"]), actual_paths(case["script"], case["provider"]))
     return None if d is None else {"kind": "replay", "case": case, "detail": d}
@@ -230,4 +364,7 @@ def replay(case):
 
 def run(ctx):
     n = ctx.n(1600, 40000)
-    return runner.merge_all(runner.pmap(_worker, [(i, n // runner.NCPU, ctx) for i in range(runner.NCPU)]))
+    res = runner.merge_all(runner.pmap(_worker, [(i, n // runner.NCPU, ctx) for i in range(runner.NCPU)]))
+    nshards = runner.NCPU * 2
+    res.merge(runner.merge_all(runner.pmap(_pattern_worker, [(i, nshards, ctx) for i in range(nshards)])))
+    return res
